@@ -183,6 +183,7 @@ def threaded_results(items, nthreads, rng, shared_objects=True):
     from tucan.serialization import serialize_molecule
     res = []
     lock = threading.Lock()
+    barrier = threading.Barrier(nthreads)
     old = sys.getswitchinterval()
     sys.setswitchinterval(1e-6)
     shared = []
@@ -203,9 +204,14 @@ def threaded_results(items, nthreads, rng, shared_objects=True):
         mine = []
         for i in order:
             mine.append({"key": items[i]["key"], "val": c14_worker.run_item(items[i])})
-        # the many small strings again and again, each thread in its own order (re-reads while other threads bring in new ones)
+        # all threads together: the many small strings again and again, each thread in its own order (re-reads while other
+        # threads bring in new ones)
         many = [i for i in order if items[i]["key"].endswith("|many")]
-        for _ in range(3):
+        try:
+            barrier.wait(timeout=120)
+        except Exception:
+            pass
+        for _ in range(6):
             r.shuffle(many)
             for i in many:
                 mine.append({"key": items[i]["key"], "val": c14_worker.run_item(items[i])})
